@@ -21,9 +21,9 @@ Here is a semantic property of the library that should hold:
 
 TASK: produce ONE realistic source change (a plausible programmer bug, a few lines) to the library code under {wt}/nifty that BREAKS this property, while
   (a) the package still imports, and
-  (b) the repository's existing test suite still passes. The relevant tests live under {wt}/test; note that most nifty.cl tests error in setup in this sandbox because the MPI library cannot be loaded (that is the same with and without your change, and is fine); run at least the test files that exercise the code you touched, e.g. `cd {wt} && /venv/bin/python -m pytest -q -p no:cacheprovider -x --timeout=900 test/<relevant files>` and make sure the set of passing tests is unchanged.
+  (b) the repository's existing test suite still passes. The relevant tests live under {wt}/test; note that most nifty.cl tests error in setup in this sandbox because the MPI library cannot be loaded (that is the same with and without your change, and is fine); run at least the test files that exercise the code you touched, e.g. `cd {wt} && /venv/bin/python -m pytest -q -p no:cacheprovider -x --timeout=900 test/<relevant files>` and make sure the set of passing tests is unchanged. To make the nifty.cl tests really execute you may additionally put the directory /tmp/nompi FIRST on PYTHONPATH (it holds a stub `mpi4py` package that raises ImportError, so nifty falls back to its non-MPI path): `cd {wt} && PYTHONPATH=/tmp/nompi:{wt} /venv/bin/python -m pytest ...`; the suite must give the same passes/failures with and without your change either way. IMPORTANT: other people work in sibling worktrees of the same repository at the same time: NEVER use `git stash` (the stash is shared between worktrees); to compare with the original use `git diff -- nifty > /tmp/my_{pid}.diff; git apply -R /tmp/my_{pid}.diff; ...; git apply /tmp/my_{pid}.diff`. Do not run the whole test suite more than once (it is slow and the machine is shared); prefer the relevant test files.
 The change must need something SPECIFIC to manifest -- an unusual input or configuration (e.g. complex factor with non-zero imaginary part, a particular combination of options, a boundary case such as convergence exactly at the iteration limit, a particular key subset, a multi-step sequence of operations, a particular interleaving/crash point, or two cooperating code sites that each look fine alone) -- NOT something that ordinary use would expose at once.
-Also write a DEMONSTRATION: a small standalone script {wt}/demo_{pid}.py (using only the public API of the library) that exits 0 on the ORIGINAL code and exits non-zero (assertion failure) WITH your change. Verify both directions yourself (use `git stash` / `git diff` in your worktree).
+Also write a DEMONSTRATION: a small standalone script {wt}/demo_{pid}.py (using only the public API of the library) that exits 0 on the ORIGINAL code and exits non-zero (assertion failure) WITH your change. Verify both directions yourself (use `git apply -R` / `git apply` with your saved diff).
 
 Deliverables (write these files, then answer with a short summary):
   {wt}/patch_{pid}.diff   -- output of `git diff -- nifty` for your change (only library files; not the demo)
